@@ -409,6 +409,17 @@ func init() {
 		}
 		return ex.tt.Str(strings.Join(diffs, "; "))
 	})
+	vx("ChanClosed", func(ex *Exec, fr *Frame, a []Value, s ssa.Instruction) Value {
+		c := ex.chanOf(a[0])
+		return ex.tt.Bool(c != nil && c.closed)
+	})
+	vx("ChanSends", func(ex *Exec, fr *Frame, a []Value, s ssa.Instruction) Value {
+		c := ex.chanOf(a[0])
+		if c == nil {
+			return ex.tt.BV(0, 64)
+		}
+		return ex.tt.BV(uint64(c.sends), 64)
+	})
 	vx("HasPrefix", func(ex *Exec, fr *Frame, a []Value, s ssa.Instruction) Value {
 		return ex.tt.PrefixOf(a[1].(*Term), a[0].(*Term))
 	})
